@@ -41,7 +41,7 @@ macro_rules! drive {
             let mut r: i128 = -1;
             let mut started = 0i128;
             match op {
-                1 | 2 => {
+                1 | 2 | 8 => {
                     if a < 0 || a as usize >= n { continue; }
                     let i = a as usize;
                     if !created[i] {
@@ -51,7 +51,9 @@ macro_rules! drive {
                         callers[i] = Some(Manual::new(svc.call(i as i128)));
                     }
                     let m = callers[i].as_mut().unwrap();
-                    if op == 1 {
+                    if op == 8 {
+                        // only create the future (call() without a poll)
+                    } else if op == 1 {
                         if !m.alive() {
                             r = 9;
                         } else {
